@@ -115,6 +115,21 @@ fn gen_history(rng: &mut Rng, unwind: bool) -> History {
     History { ops, term }
 }
 
+/// How the returned error bundles what was recorded: one child per recorded error (shown for two
+/// and more; a single recorded error comes back as itself), each with the leaves it holds.
+fn kids(e: &Error, recorded: usize) -> String {
+    if recorded < 2 {
+        return String::new();
+    }
+    format!(" kids={:?}", e.clone().into_iter().map(|c| leaf_uids(&c)).collect::<Vec<_>>())
+}
+fn kids_expected(entries: &[Vec<u32>]) -> String {
+    if entries.len() < 2 {
+        return String::new();
+    }
+    format!(" kids={:?}", entries)
+}
+
 fn leaf_uids(e: &Error) -> Vec<u32> {
     e.clone()
         .flatten()
@@ -148,7 +163,14 @@ fn exec(h: &History) -> (Vec<String>, Option<(String, String)>) {
     let mut log: Vec<String> = vec![];
     let res = catch(|| {
         let mut acc: Accumulator = Error::accumulator();
+        // how many errors the client has handed over since the last fresh accumulator (its own count)
+        let mut sent = 0usize;
         for op in &h.ops {
+            sent += match op {
+                Op::Push(_) | Op::HandleErr(_) | Op::HandleInErr(_) => 1,
+                Op::Extend(es) => es.len(),
+                _ => 0,
+            };
             match op {
                 Op::Push(e) => {
                     acc.push(e.build());
@@ -192,7 +214,7 @@ fn exec(h: &History) -> (Vec<String>, Option<(String, String)>) {
                         log.push("checkpoint->Ok(fresh)".into());
                     }
                     Err(e) => {
-                        log.push(format!("checkpoint->Err{:?} len={}", leaf_uids(&e), e.len()));
+                        log.push(format!("checkpoint->Err{:?} len={}{}", leaf_uids(&e), e.len(), kids(&e, sent)));
                         return;
                     }
                 },
@@ -201,7 +223,7 @@ fn exec(h: &History) -> (Vec<String>, Option<(String, String)>) {
         match &h.term {
             Term::Finish => match acc.finish() {
                 Ok(()) => log.push("finish->Ok".into()),
-                Err(e) => log.push(format!("finish->Err{:?} len={}", leaf_uids(&e), e.len())),
+                Err(e) => log.push(format!("finish->Err{:?} len={}{}", leaf_uids(&e), e.len(), kids(&e, sent))),
             },
             Term::FinishWith(v) => match acc.finish_with(*v) {
                 Ok(x) => log.push(format!("finish_with->Ok({x})")),
@@ -268,7 +290,7 @@ fn model(h: &History) -> (Vec<String>, Expect) {
                     log.push("checkpoint->Ok(fresh)".into());
                 } else {
                     let f = flat(&entries);
-                    log.push(format!("checkpoint->Err{:?} len={}", f, f.len()));
+                    log.push(format!("checkpoint->Err{:?} len={}{}", f, f.len(), kids_expected(&entries)));
                     return (log, Expect::NoPanic);
                 }
             }
@@ -280,7 +302,7 @@ fn model(h: &History) -> (Vec<String>, Expect) {
             if f.is_empty() {
                 log.push("finish->Ok".into())
             } else {
-                log.push(format!("finish->Err{:?} len={}", f, f.len()))
+                log.push(format!("finish->Err{:?} len={}{}", f, f.len(), kids_expected(&entries)))
             }
             (log, Expect::NoPanic)
         }
